@@ -19,7 +19,7 @@ RULE = ("real static squareroot() of qmail-send.c on every age in [0,2^%(sq)s) p
         "restart preserves the schedule, ALRM makes everything due). ASan+UBSan build of the working tree. "
         "non-trivial = in-domain root evaluations + retry cases + distinct op sequences of length >= 3 + distinct histories")
 
-QUICK = dict(sq=28, pq=8, nr=300, nh=1500, st=5)
+QUICK = dict(sq=28, pq=8, nr=300, nh=4000, st=5)
 THOROUGH = dict(sq=32, pq=10, nr=3000, nh=20000, st=1)
 
 
@@ -80,6 +80,28 @@ def neighbourhood_cases(dis, seed):
     return cases
 
 
+def replay_cases(path, tmpdir):
+    """--replay accepts a file of stdin cases or a replay JSON written by this check (its failing_case.in)"""
+    import json
+    txt = open(path).read()
+    if not txt.lstrip().startswith("{"):
+        return path
+    f = json.loads(txt).get("failing_case", {}).get("in", "")
+    tag = f[:1]
+    if tag in ("Q", "N"):
+        line = " ".join(f.split(","))
+    elif tag == "H":
+        line = "H " + (f[2:] or "-")
+    elif tag == "S":
+        p = f.split(",", 2)
+        line = "S %s %s" % (p[1], p[2]) if len(p) == 3 else ""
+    else:
+        line = ""
+    out = os.path.join(tmpdir, "replay_cases.txt")
+    open(out, "w").write(line + "\n")
+    return out
+
+
 def main():
     c = Check("C15")
     ok = c.proofs("Nq.Props.C15", drivers=["drv_c15"])
@@ -95,7 +117,7 @@ def main():
             cmds = []
             corpus = os.path.join(VERIF, "corpus", "C15.txt")
             if c.replay:
-                cmds.append("%s - < %s" % (h, c.replay))
+                cmds.append("%s - < %s" % (h, replay_cases(c.replay, s.dir)))
             else:
                 if os.path.exists(corpus):
                     cmds.append("%s - < %s" % (h, corpus))
